@@ -302,6 +302,9 @@ func ChildMain(tier string, wi, wn, from int, dir string) int {
 			continue
 		}
 		fmt.Fprintf(logF, "%d\n", idx)
+		if os.Getenv("OLC16_TEST_DIE_AT") == strconv.Itoa(idx) {
+			os.Exit(3) // self-test of the crash attribution path
+		}
 		var r *CaseResult
 		if idx < sizes.Iface {
 			r = w.runIfaceCase(idx)
@@ -511,8 +514,15 @@ func ParentMain(tier string) int {
 		}
 		seenIdx[c.idx] = true
 		sig := "C16/crash/process-death/" + layer + "-" + slug(c.how, 30)
-		wit, _ := json.Marshal(map[string]interface{}{"layer": layer, "case_index": c.idx, "seed": verdict.Seed(), "tier": tier, "how": c.how, "stderr": c.tail,
-			"note": "the worker process died (os.Exit / fatal error) while executing this case; regenerate it with the same seed and index"})
+		w := Witness{Layer: layer, CaseID: fmt.Sprintf("%s-%d-%d", layer, verdict.Seed(), c.idx), Step: -1,
+			Observed: map[string]interface{}{"how": c.how, "stderr": c.tail, "note": "the worker process died (os.Exit / fatal error) while executing this case; replaying it dies the same way"}}
+		if layer == "iface" {
+			w.Iface = GenIface(caseRng(verdict.Seed(), "iface", c.idx), sizes.IfaceLen)
+		} else {
+			w.CaseID = fmt.Sprintf("prog-%d-%d", verdict.Seed(), c.idx-sizes.Iface)
+			w.Prog = GenProg(caseRng(verdict.Seed(), "prog", c.idx-sizes.Iface), c.idx-sizes.Iface)
+		}
+		wit, _ := json.Marshal(w)
 		bySig[sig] = append(bySig[sig], vrec{c.idx, ViolationOut{Signature: sig, What: fmt.Sprintf("worker process died (%s) while executing case %d of layer %s", c.how, c.idx, layer), Witness: wit}})
 	}
 	if len(seenIdx) < total && !timedOut {
